@@ -15,6 +15,6 @@ Definition run (s : sx) : sx :=
     do pre <- as_list as_nat pre;
     do fuel <- as_nat fuel;
     do cap <- as_nat cap;
-    of_list (of_list of_nat) (rev (explore fuel (steps pre (init progs)) [] cap []))
+    of_list (of_list of_nat) (rev (snd (explore fuel (steps pre (init progs)) [] (cap, []))))
   | _ => bad_input
   end.
